@@ -184,11 +184,14 @@ class XMLishBuilder(TreeBuilder):
         pass
 
 
-def empty_soup(xml):
+def empty_soup(xml, void=None):
+    """void: the builder's own empty-element tags (empty_element_tags=...), None for the HTML defaults."""
     with warnings.catch_warnings():
         warnings.simplefilter("ignore")
         if xml:
             return BeautifulSoup("", builder=XMLishBuilder())
+        if void is not None:
+            return BeautifulSoup("", "html.parser", empty_element_tags=set(void))
         return BeautifulSoup("", "html.parser")
 
 
@@ -287,9 +290,9 @@ def is_ancestor_or_self(a, x):
     return False
 
 
-def gen_api_tree(rng, xml=False, steps=None, rich=True, start=None):
+def gen_api_tree(rng, xml=False, steps=None, rich=True, start=None, void=None):
     """A document built (or edited, when `start` is a parsed soup) through the public API. Returns the soup."""
-    soup = start if start is not None else empty_soup(xml)
+    soup = start if start is not None else empty_soup(xml, void)
     steps = steps if steps is not None else rng.randint(1, 16)
     with warnings.catch_warnings():
         warnings.simplefilter("ignore")
@@ -537,7 +540,7 @@ def multi_valued(tagname, attr):
     return attr in _MULTI.get("*", ()) or attr in _MULTI.get(tagname.lower(), ())
 
 
-def representable(el, xml):
+def representable(el, xml, void=None):
     """None if the content of this tree is something HTML markup can carry back through html.parser,
     else the reason (a string). Applies to API-built trees; a parsed tree is representable by construction."""
     for x in all_elements(el):
@@ -563,7 +566,7 @@ def representable(el, xml):
                                 return "multi-valued attribute token with whitespace"
                         elif v is not None and " ".join(attr_text(v).split()) != attr_text(v):
                             return "multi-valued attribute with irregular whitespace"
-                if x.name in HTML_VOID and x.contents:
+                if x.name in (HTML_VOID if void is None else void) and x.contents:
                     return "void element with children"
                 if x.prefix and x.name in ("script", "style"):
                     return "prefixed script/style (cdata-containing for the formatter, not for the parser)"
@@ -636,8 +639,8 @@ class LoggingBuilder(HTMLParserTreeBuilder):
                     pass
 
 
-def parse_logged(markup):
-    b = LoggingBuilder()
+def parse_logged(markup, **kw):
+    b = LoggingBuilder(**kw)
     with warnings.catch_warnings():
         warnings.simplefilter("ignore")
         soup = BeautifulSoup(markup, builder=b)
@@ -712,3 +715,14 @@ def startend_checks_closed():
     s = parse("<p><br>a<br/>b</p>")
     brs = s.find_all("br")
     return len(brs) == 2 and len(brs[1].contents) > 0
+
+
+# an everyday page with void elements written without a slash or an end tag: what any process using the library is
+# likely to have parsed before the case at hand (state must not leak from one parse into the next)
+ORDINARY_PAGE = ("<!DOCTYPE html><html><head><meta charset=utf-8><link rel=stylesheet href=a.css><link rel=icon href=i.png>"
+                 "<base href=/><title>t</title></head><body><p>one<br>two<br>three<img src=x.png><hr><input name=q>"
+                 "<area><col><embed><source><track><wbr><param name=p></body></html>")
+
+
+def warm_up():
+    parse(ORDINARY_PAGE)
